@@ -13,7 +13,10 @@ Inductive case :=
 | CW2V (position target up : vec3 Q) (fwd inv : obs)
 | COrtho (w h near far : Q) (fwd inv : obs)
 | CViewport (xr yb xl yt : Q) (fwd inv : obs)
-| CCanvas (w h : Q) (position target : vec3 Q) (zoom : Q) (fwd inv : obs).
+| CCanvas (w h : Q) (position target : vec3 Q) (zoom : Q) (fwd inv : obs)
+(* generated and observed, judged by the Python oracle only or not at all (all-float32 inputs: single precision results;
+   magnitudes outside about 1e-154..1e154: binary64 overflow/underflow inside vg.normalize) — counted by kind in the evidence *)
+| CUnjudged.
 
 Definition Qmaxabs (l : list Q) : Q := fold_left (fun acc x => Qmax' acc (Qabs x)) l 1.
 
@@ -96,4 +99,5 @@ Definition check_case (c : case) : bool :=
                     (world_to_canvas QOps w h p t zoom false) fwd &&
       let gi := if Qeq_bool zoom 0 then 1 else g + (Qabs w + Qabs h) / Qabs zoom + 2001 in
       agree_res_opt false (V3 gi gi gi) (world_to_canvas QOps w h p t zoom true) inv
+  | CUnjudged => true
   end.
